@@ -1,6 +1,7 @@
 Require Extraction.
 Require Import ExtrOcamlBasic.
 From GoPdf.Base Require Import WireAnchor.
-From GoPdf.C13 Require Import CMapRanges.
+From GoPdf.C13 Require Import CMapRanges CMapText.
 Separate Extraction wire_anchor set_mapping lookup_cid all_cid new_tounicode with_parent lookup_tu all_tu
-  get_mapping collect range_index codes_in_range next_code lookup_notdef append_code.
+  get_mapping collect range_index codes_in_range next_code lookup_notdef append_code
+  write_tokens_cid write_tokens_tu read_tokens_cid read_tokens_tu utf16be_enc utf16be_dec.
